@@ -137,3 +137,44 @@ Definition judge_print6 (c : N * str) : N :=
   let '(a, t) := c in
   let ok := str_eqb (show6 a) t in
   bits ok (option_eqb N.eqb (ip6_of_string t) (Some a)) true (negb (a =? 0)).
+
+(* suite render: the expansion as a backend without cidr_expression renders it, for the four combinations of
+   convert_or_as_in x in_expressions_allow_wildcards.
+   (source text, expected network, sample addresses with their ipaddress text,
+    [(convert_or_as_in, in_expressions_allow_wildcards, query, harness reading: is it a value list?, its quoted values)])
+   The harness reading is checked here (re-rendering it must give the query text back); the property is then
+   decided on that structure with the semantics the backend declares for it (Spec.Net.rquery_matches /
+   rquery_exact4): values of a value list are literals unless wildcards are allowed in lists. *)
+Definition render_rq (q : rquery) : str :=
+  match q with
+  | RIn vs => render_expanded true true vs
+  | ROr vs => render_expanded false false vs
+  end.
+
+Definition judge_render
+  (c : str * net * list (N * str) * list (bool * bool * outcome str * bool * list str)) : N :=
+  let '(s, n, samples, rs) := c in
+  let mpats := match parse_cidr s with Some m => match expand m with Ok l => Some l | _ => None end | None => None end in
+  let agree :=
+    match mpats with
+    | Some pats => forallb (fun r : bool * bool * outcome str * bool * list str => let '(o, a, q, _, _) := r in
+                                     match q with Ok qt => str_eqb (render_expanded o a pats) qt | _ => false end) rs
+                   && option_eqb net_eqb (parse_cidr s) (Some n)
+    | None => false
+    end in
+  let suffix := match n with Net6 _ l (Some z) => if l =? 128 then c_pcnt :: z else [] | _ => [] end in
+  let spec :=
+    forallb (fun r : bool * bool * outcome str * bool * list str => let '(o, a, q, kin, vals) := r in
+      match q with
+      | Ok qt =>
+          let rq := if kin then RIn vals else ROr vals in
+          str_eqb (render_rq rq) qt &&
+          match n with
+          | Net4 b l => rquery_exact4 a b l rq
+          | Net6 b l _ => forallb (fun at_ => negb (in_netb 128 b l (fst at_))
+                                              || rquery_matches a rq (snd at_ ++ suffix)) samples
+          end
+      | _ => false
+      end) rs in
+  let dom := match n with Net4 _ _ => true | _ => proved6 n end in
+  bits agree spec dom (negb (net_len n mod 8 =? 0)).
